@@ -8,8 +8,9 @@ def check(ctx):
         ('AllOf', '__init__'), ('AnyOf', '__init__'), ('Event', '__and__'), ('Event', '__or__'),
         ('ConditionValue', '__init__'), ('ConditionValue', '__getitem__'), ('ConditionValue', 'todict'),
         ('ConditionValue', 'keys'), ('ConditionValue', 'values'), ('ConditionValue', 'items'), ('ConditionValue', '__iter__'),
-        ('Event', 'succeed'), ('Event', 'fail'),
+        ('Event', 'succeed'), ('Event', 'fail'), ('Interruption', '_interrupt'),
     ])
+    whomay.condition_detachers(ctx, 'C05')
     return ('Static: the Condition constructor, _check, _build_value/_populate_value, _remove_check_callbacks, the two '
             'predicates and the ConditionValue accessors compared with reference tables (count once, fail on operand '
             'failure with defuse, succeed when evaluate holds, value built at processing time from processed leaves in '
